@@ -592,6 +592,20 @@ func (c *Compiler) compileExpressionStatement(stmt *ast.ExpressionStatement) err
 	return nil
 }
 
+// bindingSlot returns the constant index of the VM variable that holds a
+// binding introduced by a for loop or a match pattern. The VM keeps one flat,
+// name-keyed variable store, so a binding that shadows a variable visible in an
+// enclosing scope gets a slot name of its own; otherwise storing the binding
+// would overwrite the outer variable, which the interpreter (a child scope per
+// binding) does not do.
+func (c *Compiler) bindingSlot(name string) int {
+	if sym, ok := c.symbolTable.Resolve(name); ok && !sym.IsBuiltin {
+		c.labelCounter++
+		return c.addConstant(vm.StringValue{Val: fmt.Sprintf("%s#%d", name, c.labelCounter)})
+	}
+	return c.addConstant(vm.StringValue{Val: name})
+}
+
 // compileForStatement compiles for loop statement
 func (c *Compiler) compileForStatement(stmt *ast.ForStatement) error {
 	// Create scope for loop variables
@@ -617,13 +631,14 @@ func (c *Compiler) compileForStatement(stmt *ast.ForStatement) error {
 	c.emitWithOperand(vm.OpStoreVar, uint32(iterNameIdx))
 
 	// Define loop variables in symbol table
-	valueNameIdx := c.addConstant(vm.StringValue{Val: stmt.ValueVar})
-	c.symbolTable.Define(stmt.ValueVar, valueNameIdx)
-
+	valueNameIdx := c.bindingSlot(stmt.ValueVar)
 	var keyNameIdx int
 	hasKey := stmt.KeyVar != ""
 	if hasKey {
-		keyNameIdx = c.addConstant(vm.StringValue{Val: stmt.KeyVar})
+		keyNameIdx = c.bindingSlot(stmt.KeyVar)
+	}
+	c.symbolTable.Define(stmt.ValueVar, valueNameIdx)
+	if hasKey {
 		c.symbolTable.Define(stmt.KeyVar, keyNameIdx)
 	}
 
@@ -1345,9 +1360,15 @@ func (c *Compiler) compileMatchExpr(expr *ast.MatchExpr) error {
 
 	// Compile each case
 	for _, matchCase := range expr.Cases {
+		// The bindings of a pattern are visible in this case's guard and body
+		// only, as in the interpreter (a child environment per case)
+		caseParent := c.symbolTable
+		c.symbolTable = c.symbolTable.EnterScope(BlockScope)
+
 		// Compile pattern matching for this case
 		jumpToNextCase, err := c.compilePatternMatch(matchCase.Pattern, matchVarIdx)
 		if err != nil {
+			c.symbolTable = caseParent
 			return err
 		}
 
@@ -1355,6 +1376,7 @@ func (c *Compiler) compileMatchExpr(expr *ast.MatchExpr) error {
 		if matchCase.Guard != nil {
 			// Compile guard expression
 			if err := c.compileExpression(matchCase.Guard); err != nil {
+				c.symbolTable = caseParent
 				return err
 			}
 			// Jump to next case if guard is false
@@ -1365,8 +1387,10 @@ func (c *Compiler) compileMatchExpr(expr *ast.MatchExpr) error {
 
 		// Compile case body (this pushes the result onto the stack)
 		if err := c.compileExpression(matchCase.Body); err != nil {
+			c.symbolTable = caseParent
 			return err
 		}
+		c.symbolTable = caseParent
 
 		// Jump to end after executing case
 		jumpToEnd = append(jumpToEnd, len(c.code))
@@ -1415,7 +1439,7 @@ func (c *Compiler) compilePatternMatch(pattern ast.Pattern, matchVarIdx int) ([]
 	case ast.VariablePattern:
 		// Variable pattern always matches, just bind the value
 		c.emitWithOperand(vm.OpLoadVar, uint32(matchVarIdx))
-		varIdx := c.addConstant(vm.StringValue{Val: p.Name})
+		varIdx := c.bindingSlot(p.Name)
 		c.symbolTable.Define(p.Name, varIdx)
 		c.emitWithOperand(vm.OpStoreVar, uint32(varIdx))
 
@@ -1449,7 +1473,7 @@ func (c *Compiler) compilePatternMatch(pattern ast.Pattern, matchVarIdx int) ([]
 				jumpToNextCase = append(jumpToNextCase, nestedJumps...)
 			} else {
 				// Bind field value to field name as variable
-				varIdx := c.addConstant(vm.StringValue{Val: field.Key})
+				varIdx := c.bindingSlot(field.Key)
 				c.symbolTable.Define(field.Key, varIdx)
 				c.emitWithOperand(vm.OpStoreVar, uint32(varIdx))
 			}
@@ -1486,7 +1510,7 @@ func (c *Compiler) compilePatternMatch(pattern ast.Pattern, matchVarIdx int) ([]
 			// For simplicity, we'll just bind the whole array to rest
 			// A full implementation would slice the array
 			c.emitWithOperand(vm.OpLoadVar, uint32(matchVarIdx))
-			restIdx := c.addConstant(vm.StringValue{Val: *p.Rest})
+			restIdx := c.bindingSlot(*p.Rest)
 			c.symbolTable.Define(*p.Rest, restIdx)
 			c.emitWithOperand(vm.OpStoreVar, uint32(restIdx))
 		}
